@@ -3,6 +3,7 @@ package main
 import (
 	"fmt"
 	"go/token"
+	"go/types"
 	"sort"
 	"strings"
 
@@ -34,6 +35,86 @@ func isInitFn(f *ssa.Function) bool {
 	return false
 }
 
+// pvar is a package-level variable or a field (path) of a package-level
+// struct variable: `tables.once`, `tables.data` are variables of their own.
+// Values are interned, so pointer equality is identity.
+type pvar struct {
+	G    *ssa.Global
+	Path string // ".field.sub" ("" for the whole variable)
+	T    types.Type
+}
+
+var pvarTab = map[string]*pvar{}
+
+func internVar(g *ssa.Global, path string, t types.Type) *pvar {
+	k := g.String() + path
+	if v, ok := pvarTab[k]; ok {
+		return v
+	}
+	v := &pvar{G: g, Path: path, T: t}
+	pvarTab[k] = v
+	return v
+}
+
+func (v *pvar) Name() string   { return v.G.Name() + v.Path }
+func (v *pvar) String() string { return v.G.String() + v.Path }
+func (v *pvar) Pos() token.Pos { return v.G.Pos() }
+
+// varOf resolves an address to the package-level variable it denotes; direct
+// reports that the address IS that variable (the global, or a field path of it)
+// rather than an element or pointee reached through it.
+func varOf(addr ssa.Value) (v *pvar, direct bool) {
+	switch x := addr.(type) {
+	case *ssa.Global:
+		if pt, ok := x.Type().(*types.Pointer); ok {
+			return internVar(x, "", pt.Elem()), true
+		}
+		return internVar(x, "", x.Type()), true
+	case *ssa.FieldAddr:
+		base, d := varOf(x.X)
+		if base == nil {
+			return nil, false
+		}
+		if !d {
+			return base, false
+		}
+		st, ok := base.T.Underlying().(*types.Struct)
+		if !ok || x.Field >= st.NumFields() {
+			return base, false
+		}
+		f := st.Field(x.Field)
+		return internVar(base.G, base.Path+"."+f.Name(), f.Type()), true
+	case *ssa.IndexAddr:
+		base, _ := varOf(x.X)
+		return base, false
+	case *ssa.Slice:
+		base, _ := varOf(x.X)
+		return base, false
+	case *ssa.UnOp:
+		if x.Op != token.MUL {
+			return nil, false
+		}
+		base, _ := varOf(x.X)
+		return base, false
+	case *ssa.ChangeType:
+		return varOf(x.X)
+	case *ssa.Phi:
+		var g *pvar
+		for _, e := range x.Edges {
+			if e == ssa.Value(x) {
+				continue
+			}
+			ge, _ := varOf(e)
+			if ge == nil || (g != nil && g != ge) {
+				return nil, false
+			}
+			g = ge
+		}
+		return g, false
+	}
+	return nil, false
+}
+
 // execCtx says when a function can run and which Once guards every way of
 // reaching it.
 type execCtx struct {
@@ -41,7 +122,7 @@ type execCtx struct {
 	init   bool // can run during package initialisation
 	root   bool // an entry point: guarded by nothing
 	top    bool // guards not yet constrained (no incoming edge seen)
-	guards map[*ssa.Global]bool
+	guards map[*pvar]bool
 }
 
 // initOnly: the function runs during package initialisation only (or never).
@@ -49,7 +130,7 @@ func (c *execCtx) initOnly() bool { return c != nil && !c.any }
 
 // singleOnce returns the Once whose Do every path to the function passes
 // through, for a function that can run after initialisation.
-func (c *execCtx) singleOnce() *ssa.Global {
+func (c *execCtx) singleOnce() *pvar {
 	if c == nil || !c.any || c.top || len(c.guards) != 1 {
 		return nil
 	}
@@ -69,7 +150,7 @@ func execContexts(p *Program) map[*ssa.Function]*execCtx {
 	get := func(f *ssa.Function) *execCtx {
 		c := ctx[f]
 		if c == nil {
-			c = &execCtx{guards: map[*ssa.Global]bool{}}
+			c = &execCtx{guards: map[*pvar]bool{}}
 			ctx[f] = c
 		}
 		return c
@@ -88,7 +169,7 @@ func execContexts(p *Program) map[*ssa.Function]*execCtx {
 	}
 	type edge struct {
 		from, to *ssa.Function
-		once     *ssa.Global // non-nil: `to` is run by Do of this Once called in `from`
+		once     *pvar // non-nil: `to` is run by Do of this Once called in `from`
 	}
 	var edges []edge
 	for _, h := range fns {
@@ -175,7 +256,7 @@ func execContexts(p *Program) map[*ssa.Function]*execCtx {
 			if src.top && e.once == nil {
 				continue // caller not yet constrained
 			}
-			in := map[*ssa.Global]bool{}
+			in := map[*pvar]bool{}
 			if !src.top {
 				for g := range src.guards {
 					in[g] = true
@@ -206,7 +287,7 @@ type globalAccess struct {
 }
 
 // onceDoCall reports a call (*sync.Once).Do on a package-level Once and returns it.
-func onceDoCall(in ssa.Instruction) (*ssa.Global, *ssa.Function, bool) {
+func onceDoCall(in ssa.Instruction) (*pvar, *ssa.Function, bool) {
 	c, ok := in.(*ssa.Call)
 	if !ok {
 		return nil, nil, false
@@ -215,7 +296,10 @@ func onceDoCall(in ssa.Instruction) (*ssa.Global, *ssa.Function, bool) {
 	if !methIs(f, "sync", "Once", "Do") || len(c.Call.Args) != 2 {
 		return nil, nil, false
 	}
-	g, _ := c.Call.Args[0].(*ssa.Global)
+	g, direct := varOf(c.Call.Args[0])
+	if !direct {
+		g = nil
+	}
 	var cl *ssa.Function
 	switch a := c.Call.Args[1].(type) {
 	case *ssa.MakeClosure:
@@ -233,17 +317,17 @@ func runC11(p *Program, r *Report) {
 	r.Assumptions = []string{"caller-supplied images and readers are not mutated concurrently by the caller"}
 
 	// ---- collect accesses to package-level variables
-	acc := map[*ssa.Global][]globalAccess{}
-	var globals []*ssa.Global
+	acc := map[*pvar][]globalAccess{}
+	var globals []*pvar
 	for _, pk := range p.Prism {
 		sp := p.SSAPkg[pk.PkgPath]
 		for _, m := range sp.Members {
 			if g, ok := m.(*ssa.Global); ok && g.Name() != "init$guard" {
-				globals = append(globals, g)
+				v, _ := varOf(g)
+				globals = append(globals, v)
 			}
 		}
 	}
-	sort.Slice(globals, func(i, j int) bool { return globals[i].String() < globals[j].String() })
 	nGo := 0
 	for _, f := range p.SrcFuncs() {
 		for _, b := range f.Blocks {
@@ -253,20 +337,20 @@ func runC11(p *Program, r *Report) {
 					nGo++
 					r.Violate("C11.O2", "go statement in "+shortFn(f), p.InstrPos(in), "goroutine started outside go-parallel: its accesses are not covered by the worker analysis")
 				case *ssa.Store:
-					if g := rootGlobal(in.Addr); g != nil && isPrismPkg(g.Pkg.Pkg) {
+					if g, direct := varOf(in.Addr); g != nil && isPrismPkg(g.G.Pkg.Pkg) {
 						k := "elem-store"
-						if in.Addr == ssa.Value(g) {
+						if direct {
 							k = "store"
 						}
 						acc[g] = append(acc[g], globalAccess{f, in, k})
 					}
 				case *ssa.MapUpdate:
-					if g := rootGlobal(in.Map); g != nil && isPrismPkg(g.Pkg.Pkg) {
+					if g, _ := varOf(in.Map); g != nil && isPrismPkg(g.G.Pkg.Pkg) {
 						acc[g] = append(acc[g], globalAccess{f, in, "elem-store"})
 					}
 				case *ssa.UnOp:
 					if in.Op == token.MUL {
-						if g, ok := in.X.(*ssa.Global); ok && isPrismPkg(g.Pkg.Pkg) {
+						if g, direct := varOf(in.X); g != nil && direct && isPrismPkg(g.G.Pkg.Pkg) {
 							acc[g] = append(acc[g], globalAccess{f, in, "load"})
 						}
 					}
@@ -274,11 +358,23 @@ func runC11(p *Program, r *Report) {
 			}
 		}
 	}
+	// fields of package-level structs that are accessed on their own are variables too
+	seenVar := map[*pvar]bool{}
+	for _, g := range globals {
+		seenVar[g] = true
+	}
+	for g := range acc {
+		if !seenVar[g] {
+			seenVar[g] = true
+			globals = append(globals, g)
+		}
+	}
+	sort.Slice(globals, func(i, j int) bool { return globals[i].String() < globals[j].String() })
 	r.Check(nGo == 0, "C11.O2", "no go statements", "-", "no go statement in prism (goroutines come only from go-parallel's RunWorkers)", "go statements present")
 
 	// ---- Once.Do sites
 	type onceSite struct {
-		Once    *ssa.Global
+		Once    *pvar
 		Closure *ssa.Function
 		Call    *ssa.Call
 		In      *ssa.Function
@@ -295,7 +391,7 @@ func runC11(p *Program, r *Report) {
 	}
 	// functions that always pass through Do of a given Once before returning
 	// ("ensure" helpers): calling one is as good as calling Do directly
-	ensures := map[*ssa.Function]map[*ssa.Global]bool{}
+	ensures := map[*ssa.Function]map[*pvar]bool{}
 	for changed := true; changed; {
 		changed = false
 		for _, f := range p.SrcFuncs() {
@@ -308,7 +404,7 @@ func runC11(p *Program, r *Report) {
 					if !ok {
 						continue
 					}
-					var onces []*ssa.Global
+					var onces []*pvar
 					if g, _, ok := onceDoCall(c); ok {
 						onces = append(onces, g)
 					} else if cf := staticCallee(c); cf != nil {
@@ -329,7 +425,7 @@ func runC11(p *Program, r *Report) {
 						}
 						if all {
 							if ensures[f] == nil {
-								ensures[f] = map[*ssa.Global]bool{}
+								ensures[f] = map[*pvar]bool{}
 							}
 							ensures[f][g] = true
 							changed = true
@@ -342,7 +438,7 @@ func runC11(p *Program, r *Report) {
 	// the execution context of every function: during package initialisation
 	// only, under Do of exactly one Once only, or anywhere
 	ctx := execContexts(p)
-	closureOnce := map[*ssa.Function]*ssa.Global{}
+	closureOnce := map[*ssa.Function]*pvar{}
 	for _, f := range p.SrcFuncs() {
 		if o := ctx[f].singleOnce(); o != nil {
 			closureOnce[f] = o
@@ -363,7 +459,7 @@ func runC11(p *Program, r *Report) {
 			continue
 		}
 		// lazily published: all late stores in closures passed to Do of one Once
-		var once *ssa.Global
+		var once *pvar
 		ok := true
 		why := ""
 		for _, a := range lateStores {
@@ -418,13 +514,40 @@ func runC11(p *Program, r *Report) {
 				fmt.Sprintf("%s reads %s without first passing through %s.Do: the read is not ordered after the write inside Once.Do — a data race under the Go memory model when first calls run concurrently (and a torn slice header may be observed)", shortFn(a.Fn), g.Name(), once.Name()))
 		}
 	}
-	// the Once values themselves: only used as Do receivers
+	// the Once values themselves: only used as Do receivers. Every instruction
+	// that produces or uses the address of a Once variable is examined.
+	onceUses := map[*pvar][]ssa.Instruction{}
+	for _, f := range p.SrcFuncs() {
+		for _, b := range f.Blocks {
+			for _, in := range b.Instrs {
+				var ops []*ssa.Value
+				for _, op := range in.Operands(ops) {
+					if op == nil || *op == nil {
+						continue
+					}
+					if v, direct := varOf(*op); v != nil && direct && namedIs(v.T, "sync", "Once") {
+						if fa, isFA := in.(*ssa.FieldAddr); isFA && fa.X == *op {
+							continue // stepping into the struct: the field address is examined at its own uses
+						}
+						onceUses[v] = append(onceUses[v], in)
+					}
+				}
+			}
+		}
+	}
+	for v := range onceUses {
+		if !seenVar[v] {
+			seenVar[v] = true
+			globals = append(globals, v)
+		}
+	}
+	sort.Slice(globals, func(i, j int) bool { return globals[i].String() < globals[j].String() })
 	for _, g := range globals {
-		if !namedIs(g.Type(), "sync", "Once") {
+		if !namedIs(g.T, "sync", "Once") {
 			continue
 		}
 		bad := ""
-		for _, u := range refs(g) {
+		for _, u := range onceUses[g] {
 			if og, _, ok := onceDoCall(u); ok && og == g {
 				continue
 			}
@@ -529,7 +652,8 @@ func runC11(p *Program, r *Report) {
 	}
 
 	r.Floor("C11.O2", 20)
-	r.Floor("C11.O1", 12) // 6 lazily published variables: writers + at least one load each
+	// O1 has no floor of its own: a tree without lazily published variables has nothing to order;
+	// every package-level variable is classified under O2 or O1, and O2 carries the floor // 6 lazily published variables: writers + at least one load each
 	r.Floor("C11.O3", 9)
 	r.Floor("C11.O4", 7)
 	_ = nLazy
